@@ -95,7 +95,39 @@ def FRgbInv (s : FRgb) : Prop :=
 
 theorem rgb_clamped (s : FRgb) (op : FRgbOp K) (h : FRgbInv s) :
     (∀ d ∈ dutiesOf (FRgb.step s op).evs, 0 ≤ d ∧ d ≤ 255) ∧ FRgbInv (FRgb.step s op).st := by
-  sorry
+  open Lemmas.C04 Lemmas.C19 in
+  show (∀ d ∈ dutiesL _, InRange d) ∧ ColorOk _
+  have h' : ColorOk s.color := h
+  have ok0 : ColorOk (0, 0, 0) := ⟨by simp [InRange], by simp [InRange], by simp [InRange]⟩
+  cases op with
+  | setColor r g b => exact ⟨duties_write s _ (clampC_ok r g b), clampC_ok r g b⟩
+  | off => exact ⟨duties_write s _ ok0, ok0⟩
+  | fade r g b d n =>
+    refine ⟨?_, ?_⟩
+    · simp only [FRgb.step]
+      generalize (if toCInt d < 0 then (0 : Int) else toCInt d) = dur
+      generalize hN : (if toCInt n ≤ 0 then (1 : Int) else toCInt n) = N
+      have hNpos : 0 < N := by rw [← hN]; split <;> omega
+      by_cases hc : dur = 0 ∨ s.color = FRgb.clampC r g b
+      · rw [if_pos hc]; exact duties_write s _ (clampC_ok r g b)
+      · rw [if_neg hc]
+        apply fadeLoop_duties
+        · simp
+        · intro j h1 h2
+          exact fadeC_ok h' (clampC_ok r g b) hNpos (by omega) (by omega)
+    · rw [fw_fade_st]; exact clampC_ok r g b
+  | blink r g b t d =>
+    simp only [FRgb.step]
+    refine ⟨?_, h'⟩
+    intro x hx
+    simp only [dutiesL_append, List.mem_append] at hx
+    rcases hx with hx | hx
+    · exact blinkLoop_duties _ _ (clampC_ok r g b) _ _ [] (by simp) x hx
+    · simp only [dutiesL_cons_aWrite, dutiesL_nil, List.mem_cons, List.not_mem_nil, or_false] at hx
+      rcases hx with rfl | rfl | rfl
+      · exact h'.1
+      · exact h'.2.1
+      · exact h'.2.2
 
 /-- servo commands are clamped to the configured angle / pulse bounds, whatever is asked -/
 theorem servo_clamped (s : FServo K) (op : FServoOp K) (ha : s.minA < s.maxA) (hp : s.minP < s.maxP) :
@@ -313,13 +345,43 @@ theorem rgb_agrees (f : FRgb) (h : Host.RGB) (op : Host.RGBOp K) (hrel : RelRgb 
     (hok : (Host.RGB.step h op).res = .ok) (hnf : ∀ r g b d n, op ≠ .fade r g b d n)
     (hh : h.state = true ↔ (h.color.1 > 0 ∨ h.color.2.1 > 0 ∨ h.color.2.2 > 0)) :
     RelRgb (FRgb.step f (rgbOp op)).st (Host.RGB.step h op).st := by
-  sorry
+  open Lemmas.C04 Lemmas.C19 in
+  obtain ⟨hc, hs⟩ := hrel
+  cases op with
+  | setColor r g b =>
+    simp only [Host.RGB.step] at hok ⊢
+    cases ht : Host.RGB.triple r g b <;> simp only [ht] at hok ⊢
+    · cases hok
+    · simp only [rgbOp, FRgb.step, write_eq, triple_ok_eq ht]
+      exact ⟨rfl, rfl⟩
+  | on r g b =>
+    simp only [Host.RGB.step] at hok ⊢
+    cases ht : Host.RGB.triple r g b <;> simp only [ht] at hok ⊢
+    · cases hok
+    · simp only [rgbOp, FRgb.step, write_eq, triple_ok_eq ht]
+      exact ⟨rfl, rfl⟩
+  | off => exact ⟨rfl, rfl⟩
+  | fade r g b d n => exact absurd rfl (hnf r g b d n)
+  | blink r g b t d =>
+    simp only [Host.RGB.step] at hok ⊢
+    cases ht : Host.RGB.triple r g b <;> simp only [ht] at hok ⊢ <;> split_ifs at hok ⊢
+    cases t with
+    | flt x => cases hok
+    | int k =>
+      simp only [rgbOp, FRgb.step]
+      refine ⟨hc, ?_⟩
+      show f.state = (decide (h.color.1 > 0) || decide (h.color.2.1 > 0) || decide (h.color.2.2 > 0))
+      rw [hs, Bool.eq_iff_iff, hh]
+      simp [or_assoc]
 
 /-- a fade the host accepts ends exactly on the target on both sides, with the same on/off state -/
 theorem rgb_fade_end (f : FRgb) (h : Host.RGB) (r g b d n : Val K) (hrel : RelRgb f h)
     (hok : (Host.RGB.step h (.fade r g b d n)).res = .ok) :
     RelRgb (FRgb.step f (.fade r g b d n)).st (Host.RGB.step h (.fade r g b d n)).st := by
-  sorry
+  open Lemmas.C04 Lemmas.C19 in
+  obtain ⟨t, ht, _, hst, _⟩ := fade_spec h r g b d n hok
+  rw [hst, fw_fade_st, triple_ok_eq ht]
+  exact ⟨rfl, rfl⟩
 
 /-- every interior step differs from the host's by at most one PWM count per channel, and is equal unless the
     interpolated value lies exactly on a half (the host rounds half-to-even, the firmware half away from zero) -/
@@ -327,7 +389,8 @@ theorem rgb_fade_step_close (cur goal i n : Int) (hn : 0 < n) (hi : 0 ≤ i ∧ 
     let fw := FRgb.fadeChan cur goal i n
     let host := Host.RGB.interp (α := K) cur goal i n
     (fw - host).natAbs ≤ 1 ∧ ((2 * ((goal - cur) * i)) % (2 * n) ≠ n → fw = host) := by
-  sorry
+  intro fw host
+  exact Lemmas.C04.fade_step_close cur goal i n hn
 
 /-- the full statement (equal at every step) fails on a tie: known finding K04a -/
 theorem rgb_fade_tie_counterexample :
